@@ -8,5 +8,4 @@ CONSTANTS ND = 1
  ExclTmp = TRUE
  Emit = TRUE
 INVARIANTS P1 P2 P3 P4 P5 TypeOK
-PROPERTIES Termination
 CHECK_DEADLOCK FALSE
